@@ -147,6 +147,11 @@ mutual
       let y ← opt b.int? "remainder operand"
       if y == 0 then throw (.stuck "remainder by zero") else
       pure (.f32 (f32OfI32 (BitVec.ofInt 32 (Int.tmod x y))), st)
+    | .list [.atom "frem", a, b] => do
+      let x ← opt a.int? "remainder operand"
+      let y ← opt b.int? "remainder operand"
+      if y == 0 then throw (.stuck "remainder by zero") else
+      pure (.f32 (fbin (· * ·) (f32OfI32 (BitVec.ofInt 32 (Int.tmod x y))) 0x3F000000#32), st)
     | .list [.atom "arrlen", .atom n] => do
       match ← opt (lookup scope n) ("unbound " ++ n) with
       | .cell i => do
